@@ -2,6 +2,7 @@ package main
 
 import (
 	"bytes"
+	"regexp"
 	"crypto/sha256"
 	"encoding/hex"
 	"fmt"
@@ -105,6 +106,12 @@ func (s *appState) branch(d *driver, stack porttypes.IBCModule, pkt channeltypes
 	return o
 }
 
+// ibc-go v8 formats a math.Int with %d in one of its own error texts ("amount must be strictly positive:
+// got {824661609632}"), which prints a pointer. That text is not the orbiter's; it is masked before comparing.
+var ptrRe = regexp.MustCompile(`\{\d{6,}\}`)
+
+func maskPtr(s string) string { return ptrRe.ReplaceAllString(s, "{PTR}") }
+
 func eventsEqual(a, b sdk.Events) bool {
 	if len(a) != len(b) {
 		return false
@@ -114,7 +121,7 @@ func eventsEqual(a, b sdk.Events) bool {
 			return false
 		}
 		for j := range a[i].Attributes {
-			if a[i].Attributes[j].Key != b[i].Attributes[j].Key || a[i].Attributes[j].Value != b[i].Attributes[j].Value {
+			if a[i].Attributes[j].Key != b[i].Attributes[j].Key || maskPtr(a[i].Attributes[j].Value) != maskPtr(b[i].Attributes[j].Value) {
 				return false
 			}
 		}
@@ -160,7 +167,11 @@ func (s *appState) withoutMW(d *driver, f []string) string {
 		same = "false"
 		diff = strings.Join(diffs, ",")
 	}
-	return fmt.Sprintf("same=%s diff=%s ackmw=%s ackbare=%s nev=%d", same, diff, a.ack, b.ack, len(a.events))
+	evd := "-"
+	if !eventsEqual(a.events, b.events) {
+		evd = hx(fmt.Sprintf("%v ||| %v", a.events, b.events))
+	}
+	return fmt.Sprintf("same=%s diff=%s ackmw=%s ackbare=%s nev=%d evdiff=%s", same, diff, a.ack, b.ack, len(a.events), evd)
 }
 
 // cmpstacks <pkt>: non-committing. App-wired stack against the harness-wired stack (wiring equivalence).
